@@ -91,6 +91,12 @@ class Run:
                 base = strip_line(o["name"])
                 seen[base] += 1
                 o["key"] = base
+                if o["status"] == "refuted" and o.get("kind") in ("inv-init", "inv-preserved", "cut"):
+                    # a loop invariant / cut fact that is not inductive for this code is a PROOF that does not go through, not a counterexample
+                    # to the property: undecided.  What decides is a refuted post / safety / yield obligation or a confirmed bounded counterexample.
+                    if base not in confirmed:
+                        self.undecided.append({"obligation": o["name"], "reason": "proof artefact (loop invariant / cut fact) not established for this code; the property-level obligations and the bounded pass decide"})
+                    continue
                 if o["status"] == "refuted":
                     if base in confirmed:
                         continue
